@@ -948,14 +948,15 @@ func (wd *h3eWorld) rawClientScenarios(addr string, ctls *tls.Config, r *u.Rng, 
 	okSettings := h3eFrame(0x4, nil)
 	grease := func() uint64 { return 0x1f*uint64(r.Intn(1<<16)) + 0x21 }
 	type scen struct {
-		name       string
-		uni        [][]byte
-		req        []byte
-		fin, reset bool
-		wantStatus string // "" = no response expected
-		wantBody   []byte // body the handler must see (when wantStatus == "200")
-		wantApp    int64  // connection must be closed with this code; -1 = must stay alive; -2 = don't care
-		id         int
+		name        string
+		uni         [][]byte
+		req         []byte
+		fin, reset  bool
+		wantStatus  string // "" = no response expected
+		wantBody    []byte // body the handler must see (when wantStatus == "200")
+		wantApp     int64  // connection must be closed with this code; -1 = must stay alive; -2 = don't care
+		id          int
+		wantTrailer [][2]string // trailer fields (sent WITHOUT a Trailer header field announcing them) the handler must see
 	}
 	id := 100000
 	mk := func() []scen {
@@ -1033,7 +1034,11 @@ func (wd *h3eWorld) rawClientScenarios(addr string, ctls *tls.Config, r *u.Rng, 
 		out = append(out, scen{name: "headers-only-no-fin", req: h3eReqHeaders(p), wantApp: -2})
 		// trailers + unknown frames after them: fine
 		id2, p := newID()
-		out = append(out, scen{name: "trailers-then-unknown", id: id2, uni: [][]byte{ctrl(okSettings)}, req: append(append(append(h3eReqHeaders(p), h3eFrame(0, body)...), h3eHeaders("x-t", "1")...), h3eFrame(grease(), []byte{1, 2})...), fin: true, wantStatus: "200", wantBody: body, wantApp: -1})
+		out = append(out, scen{name: "trailers-then-unknown", id: id2, uni: [][]byte{ctrl(okSettings)}, req: append(append(append(h3eReqHeaders(p), h3eFrame(0, body)...), h3eHeaders("x-t", "1")...), h3eFrame(grease(), []byte{1, 2})...), fin: true, wantStatus: "200", wantBody: body, wantApp: -1,
+			wantTrailer: [][2]string{{"X-T", "1"}}})
+		id3, p3 := newID()
+		out = append(out, scen{name: "undeclared-request-trailers", id: id3, uni: [][]byte{ctrl(okSettings)}, req: append(append(h3eReqHeaders(p3), h3eFrame(0, body)...), h3eHeaders("x-first", "1", "x-second", "one", "x-second", "two")...), fin: true, wantStatus: "200", wantBody: body, wantApp: -1,
+			wantTrailer: [][2]string{{"X-First", "1"}, {"X-Second", "one"}, {"X-Second", "two"}}})
 		return out
 	}
 	done := 0
@@ -1093,6 +1098,17 @@ func (wd *h3eWorld) rawClientScenarios(addr string, ctls *tls.Config, r *u.Rng, 
 						detail += " | handler never ran"
 					}
 					wd.fail("h3e2e/unknown-not-ignored", "the handler did not read exactly the DATA payloads of a request with interleaved ignorable frames", detail)
+				} else if len(s.wantTrailer) > 0 {
+					wt := h3eGroup(s.wantTrailer)
+					okT := len(seen.trailer) == len(wt)
+					for k, v := range wt {
+						if fmt.Sprint(seen.trailer[k]) != fmt.Sprint(v) {
+							okT = false
+						}
+					}
+					if !okT {
+						wd.fail("h3e2e/request-altered", fmt.Sprintf("the handler did not see exactly the request trailers the client sent (not announced in a Trailer header field): handler saw %q, client sent %q", seen.trailer, wt), detail)
+					}
 				}
 			}
 		}
@@ -1508,9 +1524,9 @@ func h3eChild(w *bufio.Writer, seed uint64, n int) {
 		wd.line("SAMPLE\texchange %s: handler and client observations equal the generated message", wd.specs[1])
 	}
 	// B. raw peers
-	nRaw := 30
+	nRaw := 31
 	if thorough {
-		nRaw = 30 * 6
+		nRaw = 31 * 6
 	}
 	wd.rawClientScenarios(addr, ctls, r.Fork(), nRaw)
 	wd.contentLengthServerSide(addr, ctls)
